@@ -4,6 +4,7 @@ import (
 	"bytes"
 	"crypto/tls"
 	"fmt"
+	"github.com/cybergarage/go-redis/redis/auth"
 	"os"
 	"reflect"
 	"runtime"
@@ -45,6 +46,9 @@ type cluster struct {
 	lifeAlive bool
 	seq       int // global event sequence (history timestamps)
 	execHeld  bool
+	// AutoYields switches the inserted scheduling points on for this run
+	AutoYields bool
+	harnessGid uint64
 	// Contend[i]: the i-th acquisition of the command lock meets a busy lock (phantom holder, see contend)
 	Contend  []bool
 	nacq     int
@@ -86,7 +90,7 @@ func newCluster(tape *sim.Tape, o *Outcome) *cluster {
 				s.Park("?", "yield:exec.lock", obj, free)
 				cl.execHeld = true
 				s.Count("exec_lock_acquisitions")
-				if cl.nacq < len(cl.Contend) && cl.Contend[cl.nacq] {
+				if !cl.AutoYields && cl.nacq < len(cl.Contend) && cl.Contend[cl.nacq] {
 					contend(obj, s)
 				}
 				cl.nacq++
@@ -102,6 +106,32 @@ func newCluster(tape *sim.Tape, o *Outcome) *cluster {
 		s.Count("yield_" + point)
 		s.Park(taskNameFor(obj), "yield:"+point, obj, nil)
 	}
+	// scheduling points inserted by cmd/autoyield in front of every lock acquisition / sync.Map access of the
+	// framework, the auth package and the example store: switched on per run (AutoYields)
+	cl.harnessGid = sim.Goid()
+	auto := func(point string, obj any) {
+		if !cl.AutoYields || !s.Serial || sim.Goid() == cl.harnessGid {
+			return // off, free-running, or the harness itself calling into the framework
+		}
+		if s.CurrentTask() == "life" {
+			// lifecycle calls keep their hand-placed yields only: Stop closes the connections in Go map order, and
+			// scheduling points inside that loop would make the order part of the schedule
+			return
+		}
+		s.Count("auto_yield_parks")
+		switch {
+		case strings.HasPrefix(point, "lock:"):
+			// gated like exec.lock: released only when the lock is free, so no task ever blocks on a real mutex
+			s.Park("?", "auto:"+point, obj, lockProbe(obj))
+		case strings.HasPrefix(point, "rlock:"):
+			s.Park("?", "auto:"+point, obj, rlockProbe(obj))
+		default:
+			s.Park("?", "auto:"+point, nil, nil)
+		}
+	}
+	redis.VerifAutoYield = auto
+	auth.VerifAutoYield = auto
+	exserver.VerifAutoYield = auto
 	exserver.VerifYield = func(point string, key string) {
 		if !cl.YieldOn[point] {
 			return
@@ -193,6 +223,43 @@ func contend(obj any, s *sim.Sim) bool {
 		tl.Unlock()
 	}()
 	return true
+}
+
+type tryRLocker interface {
+	TryRLock() bool
+	RUnlock()
+}
+
+// rlockProbe is lockProbe for a read lock (readers do not exclude each other).
+func rlockProbe(obj any) func() bool {
+	var get func() any
+	if _, ok := obj.(tryRLocker); ok {
+		get = func() any { return obj }
+	} else {
+		rv := reflect.ValueOf(obj)
+		if rv.IsValid() && rv.Kind() == reflect.Pointer && !rv.IsNil() && (rv.Elem().Kind() == reflect.Pointer || rv.Elem().Kind() == reflect.Interface) {
+			get = func() any {
+				if rv.Elem().IsNil() {
+					return nil
+				}
+				return rv.Elem().Interface()
+			}
+		}
+	}
+	if get == nil {
+		return lockProbe(obj)
+	}
+	return func() bool {
+		l, ok := get().(tryRLocker)
+		if !ok {
+			return true
+		}
+		if l.TryRLock() {
+			l.RUnlock()
+			return true
+		}
+		return false
+	}
 }
 
 func taskNameFor(obj any) string {
@@ -736,6 +803,9 @@ func (cl *cluster) finish() {
 	redis.VerifListen = nil
 	redis.VerifYield = nil
 	exserver.VerifYield = nil
+	redis.VerifAutoYield = nil
+	auth.VerifAutoYield = nil
+	exserver.VerifAutoYield = nil
 }
 
 // probe opens a fresh connection, sends PING and reports whether +PONG came back within the step budget.
@@ -771,7 +841,7 @@ func (cl *cluster) probe(addr string, name string, budget int) (bool, string) {
 				t := t
 				acts = append(acts, sim.Action{Key: "run " + t.Name, Do: func() { cl.S.Release(t) }})
 			}
-			if c.P != nil && (t.Name == fmt.Sprintf("c%d", c.P.ID) || taskObjPipe(t) == c.P.ID) {
+			if c.P != nil && (t.Name == fmt.Sprintf("c%d", c.P.ID) || taskObjPipe(t) == c.P.ID || anonymous(t)) {
 				t := t
 				acts = append(acts, sim.Action{Key: "run " + t.Name, Do: func() { cl.S.Release(t) }})
 			}
@@ -784,6 +854,10 @@ func (cl *cluster) probe(addr string, name string, budget int) (bool, string) {
 	}
 	return false, "step budget exhausted"
 }
+
+// anonymous: a goroutine that reached an inserted scheduling point before any park point that names it (a
+// connection goroutine before its first read): the selective drivers (probes) let such tasks run as well.
+func anonymous(t *sim.Task) bool { return strings.HasPrefix(t.Name, "?") }
 
 func taskObjPipe(t *sim.Task) int {
 	if e, ok := t.Obj.(*sim.End); ok && e != nil {
@@ -799,7 +873,7 @@ func (cl *cluster) settleFor(c *client, budget int) {
 		c.collect()
 		acts := c.actions()
 		for _, t := range cl.S.Runnable() {
-			if c.P != nil && (t.Name == fmt.Sprintf("c%d", c.P.ID) || taskObjPipe(t) == c.P.ID) {
+			if c.P != nil && (t.Name == fmt.Sprintf("c%d", c.P.ID) || taskObjPipe(t) == c.P.ID || anonymous(t)) {
 				t := t
 				acts = append(acts, sim.Action{Key: "run " + t.Name, Do: func() { cl.S.Release(t) }})
 			}
